@@ -4,15 +4,16 @@ package runtime
 // randomness of the Go runtime. With a nil hook the runtime behaves as usual.
 
 // VerifMapIterHook supplies the random word of mapiterinit (start bucket and
-// in-bucket offset of a range statement).
-var VerifMapIterHook func() uint64
+// in-bucket offset of a range statement); count is the number of entries of
+// the map being ranged over.
+var VerifMapIterHook func(count int) uint64
 
 // VerifMapSeedHook supplies the per-map hash seed.
 var VerifMapSeedHook func() uint32
 
-func verifMapIterRand() uint64 {
+func verifMapIterRand(count int) uint64 {
 	if h := VerifMapIterHook; h != nil {
-		return h()
+		return h(count)
 	}
 	return rand()
 }
